@@ -1,4 +1,4 @@
-SPECIFICATION JSpec
+SPECIFICATION MCSpec
 CONSTANTS
   FinalScan = TRUE
   Scheme = "fixed"
